@@ -725,9 +725,14 @@ class ReadGsd(Unit):
         n_items = seq.length if isinstance(seq, A.SeqVal) else len(seq)
         yield names[2], sv.cmp("==", n_items, T)
         ins = sv.and_(sv.cmp(">=", s, 0), sv.cmp("<", s, T))
-        ctx.state  # noqa
         from pyvc.state import cur
-        cur().assume(ins)                          # an arbitrary frame index (all clauses below are about frame s)
+        cur().assume(ins)     # element s of a lazily evaluated list exists for 0 <= s < T only (its index obligations are generated on access)
+        for item in self._frame_clauses(names, inp, seq, cur):           # all clauses below are about an arbitrary frame 0 <= s < T
+            nm, goal = item[0], item[1]
+            yield (nm, sv.implies(ins, goal)) + tuple(item[2:])
+
+    def _frame_clauses(self, names, inp, seq, cur):
+        d, T, s, i = inp["d"], inp["T"], inp["s"], inp["i"]
         snap = seq.fn(s) if isinstance(seq, A.SeqVal) else None
         ok = _is_snapshot(snap)
         yield names[3], bool(ok)
@@ -835,6 +840,184 @@ class ReadGsdDcd(ReadGsd):
     def position_rows(self, inp, s):
         # a DCD trajectory has one particle number for all frames (checked by the code against frame 0 of the GSD file)
         return inp["Nd"]
+
+
+# =====================================================================================================
+# LAMMPS log
+
+
+def log_file(ctx, path):
+    """registers a symbolic log file: nlines >= 1 lines; line p is described by the predicates the reader uses:
+       ISSTEP(p) (starts with 'Step '), ISLOOP(p) (starts with 'Loop time of '), ISBLANK(p) (the line is exactly a newline),
+       ISNUM(p) (its first word is numeric); a line has at least one word unless it is blank."""
+    I, B = z3.IntSort(), z3.BoolSort()
+    nlines = ctx.int("nlines")
+    ctx.assume(nlines >= 1)
+    ISSTEP, ISLOOP, ISBLANK, ISNUM = (z3.Function(nm, I, B) for nm in ("ISSTEP", "ISLOOP", "ISBLANK", "ISNUM"))
+    NW = z3.Function("NWORDS", I, I)
+    ctx.array_fact("NWORDS", lambda p: z3.And(NW(p) >= 0, z3.Implies(z3.Not(ISBLANK(p)), NW(p) >= 1)))
+
+    def line_fn(pos):
+        pz = sv.znum(A.simp(pos))
+
+        def startswith(prefix):
+            if prefix == "Step ":
+                return sv.SV(ISSTEP(pz))
+            if prefix == "Loop time of ":
+                return sv.SV(ISLOOP(pz))
+            raise sv.EngineError(f"log model: startswith({prefix!r})")
+
+        def eq(text):
+            if text == "\n":
+                return sv.SV(ISBLANK(pz))
+            raise sv.EngineError(f"log model: comparison with {text!r}")
+
+        def tok(c):
+            if sv.is_conc(c) and int(c) == 0:
+                return Tok("sym", {"isnumeric": sv.SV(ISNUM(pz))})
+            return Tok("sym", {})
+        return LineVal(TokList(sv.SV(NW(pz)), tok), props={"startswith": startswith, "eq": eq})
+    ctx.state.files[path] = (0, line_fn, nlines)
+    return dict(nlines=nlines, ISSTEP=ISSTEP, ISLOOP=ISLOOP, ISBLANK=ISBLANK, ISNUM=ISNUM)
+
+
+class ReadLammpsLog(Unit):
+    """read_lammpslog(filename): one frame per thermodynamic section, in file order.  Section k is delimited by the k-th line starting
+       with 'Step ' (its header, line S_k) and the k-th line starting with 'Loop time of ' (line E_k); the frame of a COMPLETE section is
+       read from header line S_k with exactly the E_k - S_k - 1 lines strictly between the two (pandas.read_csv(skiprows=S_k, nrows=...)).
+       Complete log: as many 'Loop time' lines as 'Step ' lines, the last line is blank or starts with a non-numeric word.
+       Interrupted log (last line starts with a number, one 'Step ' line more than 'Loop time' lines): the complete sections are still
+       returned in full, plus one frame for the unfinished section (no claim on its extent)."""
+    module = SL
+    qualname = "read_lammpslog"
+    prop = "C19"
+    timeout = 30
+
+    def cases(self):
+        return ["complete/last-line-blank", "complete/last-line-text", "interrupted"]
+
+    def setup(self, ctx, case):
+        from pyvc.sigma import Sum
+        path = "log.lammps"
+        sym = log_file(ctx, path)
+        nl = sym["nlines"]
+        last = sv.znum(sv.sub(nl, 1))
+        nS = Sum(0, nl, lambda p: sv.ite(sv.SV(sym["ISSTEP"](sv.znum(p))), 1, 0))
+        nE = Sum(0, nl, lambda p: sv.ite(sv.SV(sym["ISLOOP"](sv.znum(p))), 1, 0))
+        if case == "complete/last-line-blank":
+            ctx.assume(sym["ISBLANK"](last))
+        elif case == "complete/last-line-text":
+            ctx.assume(z3.And(z3.Not(sym["ISBLANK"](last)), z3.Not(sym["ISNUM"](last))))
+        else:
+            ctx.assume(z3.And(z3.Not(sym["ISBLANK"](last)), sym["ISNUM"](last)))
+        ctx.assume(sv.cmp("==", nS, sv.add(nE, 1 if case == "interrupted" else 0)))
+        # the k-th 'Step ' line S(k) and the k-th 'Loop time of ' line E(k): increasing enumerations of the lines with the predicate
+        # (the same relational definition the library contract of filtered selection uses); well-formed log: the k-th section's
+        # end line comes after its header line
+        from pyvc.relops import select
+        _, S, RS, cS = select(lambda t: sv.SV(sym["ISSTEP"](sv.znum(t))), nl)
+        _, E, RE, cE = select(lambda t: sv.SV(sym["ISLOOP"](sv.znum(t))), nl)
+        kk = z3.Int("wf_k")
+        Sz, Ez = S(sv.SV(kk)).t, E(sv.SV(kk)).t
+        nEz = sv.znum(nE)
+
+        def wf(t, *ps):
+            return z3.Implies(z3.And(t >= 0, t < nEz), z3.substitute(Sz, (kk, t)) < z3.substitute(Ez, (kk, t)))
+        ctx.array_fact(Sz.decl().name(), wf)
+        ctx.array_fact(Ez.decl().name(), wf)
+        sym.update(nS=nS, nE=nE, k=ctx.int("k"), path=path, S=S, E=E)
+        return [path], {}, sym
+
+    def clause_names(self, case):
+        return ["one-frame-per-Step-line", "frame-k-reads-header-S_k-and-all-lines-strictly-between-S_k-and-E_k"]
+
+    def ensures(self, ctx, case, inp, out):
+        from pyvc.interp import Ref
+        from pyvc.state import cur
+        names = self.clause_names(case)
+        k, nl, S, E = inp["k"], inp["nlines"], inp["S"], inp["E"]
+        res = out.value
+        ok = isinstance(res, Ref) and res.kind == "list"
+        seq = res.content if ok else None
+        n_items = (seq.length if isinstance(seq, A.SeqVal) else len(seq)) if ok else None
+        yield names[0], sv.and_(bool(ok), sv.cmp("==", n_items, inp["nS"]) if ok else False)
+        if not ok:
+            yield names[1], False
+            return
+        # frame k for a complete section: k < number of 'Loop time of' lines
+        ink = sv.and_(sv.cmp(">=", k, 0), sv.cmp("<", k, inp["nE"]))
+        if not isinstance(seq, A.SeqVal):
+            yield names[1], sv.implies(ink, sv.cmp("<", k, len(seq)) if len(seq) == 0 else False)     # no frames: there must be no complete section
+            return
+        fr = seq.fn(k)
+        okf = isinstance(fr, Ref) and fr.kind == "obj" and fr.content.get("kind") == "csv-frame"
+        if not okf:
+            yield names[1], False
+            return
+        fc = fr.content
+        yield names[1], sv.implies(ink, sv.and_(fc["path"] == inp["path"], sv.cmp("==", fc["header_line"], S(k)), sv.cmp("==", fc["first_row"], sv.add(S(k), 1)),
+                                                sv.cmp("==", sv.add(fc["first_row"], fc["nrows"]), E(k))))
+
+    def replay(self, case, clause, model, seed):
+        return _replay_log(seed)
+
+
+def _replay_log(seed):
+    """real read_lammpslog on written logs with several run sections"""
+    import importlib
+    import os
+    import random
+    import shutil
+    import tempfile
+
+    import numpy as np
+    M = importlib.import_module(SL)
+    rng = random.Random(seed)
+    tmp = tempfile.mkdtemp(prefix="pyvc-replay-")
+    try:
+        for trial in range(40):
+            K = rng.randint(1, 4)
+            lines = ["LAMMPS (2 Aug 2023)", "units lj", ""]
+            truth = []
+            for k in range(K):
+                cols = ["Step", "Temp", "PotEng"] + (["Press"] if rng.random() < 0.5 else [])
+                lines += [f"run {1000 * (k + 1)}", "Per MPI rank memory allocation (min/avg/max) = 3.1 | 3.1 | 3.1 Mbytes"]
+                lines.append(" ".join(cols) + " ")
+                nrow = rng.randint(1, 6)
+                rows = [[100 * r] + [round(rng.uniform(-2, 2), 5) for _ in cols[1:]] for r in range(nrow)]
+                for r in rows:
+                    lines.append(" ".join(str(x) for x in r))
+                lines.append(f"Loop time of {rng.uniform(0.1, 9):.5f} on 1 procs for {1000 * (k + 1)} steps with 100 atoms")
+                lines += ["", "Performance: 1.0 tau/day", ""]
+                truth.append((cols, rows))
+            interrupted = trial % 3 == 2
+            if interrupted:
+                # the run was interrupted inside a further section: header and r >= 1 thermo lines, no 'Loop time' line
+                r = 1 + (trial // 3) % 4
+                lines += ["run 5000", "Step Temp PotEng "] + [f"{100 * q} {rng.uniform(-2, 2):.5f} {rng.uniform(-2, 2):.5f}" for q in range(r)]
+            else:
+                lines.append(rng.choice(["Total wall time: 0:00:01", ""]))
+            text = "\n".join(lines) + "\n"
+            path = os.path.join(tmp, f"log{trial}.lammps")
+            with open(path, "w") as fh:
+                fh.write(text)
+            try:
+                got = M.read_lammpslog(path)
+            except Exception as e:
+                return {"ran": True, "failed": True, "inputs": {"text": text}, "detail": f"raises {type(e).__name__}: {e}", "searched": trial + 1}
+            bad = None
+            if len(got) != K + (1 if interrupted else 0):
+                bad = f"{len(got)} frames for {K} complete run sections" + (" and one unfinished section" if interrupted else "")
+            else:
+                for k, (df, (cols, rows)) in enumerate(zip(got, truth)):
+                    if list(df.columns) != cols or df.shape != (len(rows), len(cols)) or not np.allclose(df.values.astype(float), np.array(rows, dtype=float)):
+                        bad = f"section {k}: columns {list(df.columns)} shape {df.shape}, expected {cols} with {len(rows)} rows"
+                        break
+            if bad:
+                return {"ran": True, "failed": True, "inputs": {"text": text}, "detail": bad, "searched": trial + 1}
+        return {"ran": True, "failed": False, "searched": 40}
+    finally:
+        shutil.rmtree(tmp, ignore_errors=True)
 
 
 def _replay_gsd(with_dcd, seed):
@@ -1057,7 +1240,7 @@ def _replay_dump_readers(which, seed):
         shutil.rmtree(tmp, ignore_errors=True)
 
 
-UNITS = [WriteDumpHeader(), WriteDataHeader(), ReadLammpsVector(), ReadLammpsCentertype(), ReadGsd(), ReadGsdDcd(), ReadAdditions()]
+UNITS = [WriteDumpHeader(), WriteDataHeader(), ReadLammpsVector(), ReadLammpsCentertype(), ReadGsd(), ReadGsdDcd(), ReadAdditions(), ReadLammpsLog()]
 
 
 def lemmas():
